@@ -19,6 +19,8 @@ or a constructor argument with |n| >= 2^31; distinct = distinct (a, b) / n";
 pub enum Case5 {
     Pair { a: Big, b: Big },
     New(i64),
+    /// a batch of implementation results re-computed by python3 (second, independent oracle)
+    PyRecords { seed: u64, n: usize },
 }
 
 impl Case for Case5 {
@@ -26,12 +28,14 @@ impl Case for Case5 {
         match self {
             Case5::Pair { a, b } => json!({"kind":"pair","a":a.to_json(),"b":b.to_json()}),
             Case5::New(n) => json!({"kind":"new","n":n}),
+            Case5::PyRecords { seed, n } => json!({"kind":"pyrecords","seed":seed,"n":n}),
         }
     }
     fn from_json(v: &Value) -> Option<Self> {
         match v.get("kind")?.as_str()? {
             "pair" => Some(Case5::Pair { a: Big::from_json(v.get("a")?)?, b: Big::from_json(v.get("b")?)? }),
             "new" => Some(Case5::New(v.get("n")?.as_i64()?)),
+            "pyrecords" => Some(Case5::PyRecords { seed: v.get("seed")?.as_u64()?, n: v.get("n")?.as_u64()? as usize }),
             _ => None,
         }
     }
@@ -191,6 +195,7 @@ fn expect(got: &BigNum, want: &RefInt, sig: &str, ctxt: &dyn Fn() -> String, dis
 pub fn check(c: &Case5, st: &mut Stats, tier: Tier) -> CheckResult {
     let display_limit = 16usize;
     match c {
+        Case5::PyRecords { .. } => Ok(()),
         Case5::New(n) => {
             let n = *n as isize;
             let want = RefInt::from_i128(n as i128);
@@ -315,9 +320,55 @@ pub fn run(ctx: &Ctx, out: &mut Outcome) {
     // a band of short operands: dense coverage of 1-3 limb patterns
     search::<Case5>(ctx, out, "pairs-short", tier.pick(40_000, 400_000), &|| pair_strategy(3), &move |c, st| check(c, st, tier));
     search::<Case5>(ctx, out, "new", tier.pick(20_000, 200_000), &new_strategy, &move |c, st| check(c, st, tier));
+    if !out.failed() {
+        python_stage(ctx, out, ctx.seed ^ 0xC05, tier.pick(1_000, 20_000));
+    }
 }
 
-pub fn replay(_ctx: &Ctx, v: &Value) -> Result<CheckResult, String> {
+/// implementation results (integers and rationals) re-computed by python3
+fn python_stage(ctx: &Ctx, out: &mut Outcome, seed: u64, n: usize) {
+    let t0 = std::time::Instant::now();
+    let recs = match guarded("pyrecords", || crate::pyoracle::implementation_records(seed, n)) {
+        Ok(r) => r,
+        Err(f) => {
+            let v = json!({"property": ctx.id, "stage": "python-cross-oracle", "sig": f.sig, "msg": f.msg, "case": Case5::PyRecords { seed, n }.to_json()});
+            let p = write_failure(&ctx.verif.join("failures"), &ctx.id, &v);
+            out.violations.push((f, p));
+            return;
+        }
+    };
+    let lines = recs.lines().count() as u64;
+    match crate::pyoracle::run_python(&ctx.verif, &ctx.scratch, &recs, "impl") {
+        Ok(summary) => {
+            out.stats.evaluations += lines;
+            out.stats.class_n("records re-computed by python3", lines);
+            out.stages.push(json!({"stage": "python-cross-oracle", "cases": lines, "wall_s": t0.elapsed().as_secs_f64(), "summary": summary}));
+        }
+        Err(report) => {
+            if report.starts_with("harness:") {
+                out.inconclusive.push(report);
+                return;
+            }
+            let f = Failure::new("c05:python", format!("python3 disagrees with implementation results: {}", report.chars().take(1500).collect::<String>()));
+            let v = json!({"property": ctx.id, "stage": "python-cross-oracle", "sig": f.sig, "msg": f.msg, "case": Case5::PyRecords { seed, n }.to_json()});
+            let p = write_failure(&ctx.verif.join("failures"), &ctx.id, &v);
+            out.violations.push((f, p));
+        }
+    }
+}
+
+pub fn replay(ctx: &Ctx, v: &Value) -> Result<CheckResult, String> {
+    if let Some(Case5::PyRecords { seed, n }) = Case5::from_json(&v["case"]) {
+        let recs = match guarded("pyrecords", || crate::pyoracle::implementation_records(seed, n)) {
+            Ok(r) => r,
+            Err(f) => return Ok(Err(f)),
+        };
+        return match crate::pyoracle::run_python(&ctx.verif, &ctx.scratch, &recs, "impl") {
+            Ok(_) => Ok(Ok(())),
+            Err(r) if r.starts_with("harness:") => Err(r),
+            Err(r) => Ok(Err(Failure::new("c05:python", r))),
+        };
+    }
     replay_case::<Case5>(v, &|c, st| check(c, st, Tier::Thorough))
 }
 
